@@ -53,6 +53,11 @@ RawPayloads ==
      p_dpe  |-> Dp("r3", "emptySym", "none"),     p_dpx  |-> Dp("iA1", "good", "none"),
      p_a127 |-> Mut(Tx("iA1", "bob", 1, "none"), [kind |-> "setinner", off |-> 128, bytes |-> A!Zeros(16) \o <<128>> \o A!Zeros(15)]),
      p_a128 |-> Mut(Tx("iA1", "bob", 1, "none"), [kind |-> "setinner", off |-> 128, bytes |-> A!Zeros(15) \o <<1>> \o A!Zeros(16)]),
+     \* amount words whose UPPER half is not zero while the lower half is a plain 1: the top bit of the word (2^255 + 1),
+     \* the top bit of the upper half's last byte (2^135 + 1), all ones (what a 256-bit negative number looks like)
+     p_a255 |-> Mut(Tx("iA1", "bob", 1, "none"), [kind |-> "setinner", off |-> 128, bytes |-> <<128>> \o A!Zeros(30) \o <<1>>]),
+     p_a135 |-> Mut(Tx("iA1", "bob", 1, "none"), [kind |-> "setinner", off |-> 128, bytes |-> A!Zeros(15) \o <<128>> \o A!Zeros(15) \o <<1>>]),
+     p_aff  |-> Mut(Tx("iA1", "bob", 1, "none"), [kind |-> "setinner", off |-> 128, bytes |-> [k \in 1..16 |-> 255] \o A!Zeros(15) \o <<1>>]),
      p_t1   |-> Mut(Tx("iA1", "bob", 1, "none"), [kind |-> "trunc", n |-> 1]),
      p_t32  |-> Mut(Tx("iA1", "bob", 1, "none"), [kind |-> "trunc", n |-> 32]),
      p_p1   |-> Mut(Tx("iA1", "bob", 1, "none"), [kind |-> "extend", n |-> 1]),
@@ -85,6 +90,10 @@ Main(s) ==
     \cup {[name |-> "Deliver", payload |-> p, srcChain |-> "axelar", srcAddr |-> "hub"] : p \in DOMAIN RawPayloads}
     \cup {[name |-> "Deliver", payload |-> p, srcChain |-> c, srcAddr |-> x] :
             p \in {"p_tx", "p_dp"}, c \in {"axelar", "ethereum"}, x \in {"hub", "nothub"}}
+    \* source chains that are neighbours of the hub's name in string order: sorting before it, after it, a proper
+    \* prefix, an extension, another case, the empty name (the hub chain is recognised by equality, nothing else)
+    \cup {[name |-> "Deliver", payload |-> "p_tx", srcChain |-> c, srcAddr |-> "hub"] :
+            c \in {"avalanche", "axela", "axelar2", "Axelar", "AXELAR", ""}}
     \cup {[name |-> n, chain |-> "ethereum", auth |-> {"owner0"}] : n \in {"SetTrusted", "RemoveTrusted"}}
 
 Acts(s) == IF Setup(s) # {} THEN Setup(s) ELSE Main(s)
